@@ -20,7 +20,7 @@ var c18 = core.Register(&core.Prop{
 	Rule: "decimal arguments with up to 15 significant digits and exponents within +-15 (ties of both parities and signs, integers, near-integers, zero, -0), argument lists of length 1-6 for max/min, integer pairs below 2^53 for & | ^ ~, numeric and non-numeric strings for toFloat/toInt/finite; " +
 		"exact functions against the big-integer decimal model, sqrt/exp/ln/log against 320-bit series evaluations and through their inverse laws; non-trivial = non-integer or negative or multi-argument input; distinct by (function, arguments)",
 	Assumptions: []string{
-		"'agree to 15 significant digits' is decided as relative error <= 5e-15 against the high-precision reference, for results within 10^+-300",
+		"'agree to 15 significant digits' is decided as relative error <= 5e-15 against the high-precision reference, for results within 10^+-377 (exp arguments up to +-870: well inside the statement's arguments and inside what the pinned tree computes), logarithms near 1 included",
 		"inverse laws are checked with a tolerance scaled by the condition number of the outer function",
 		"toFloat: text is 'numeric' when it matches [+-]digits[.digits][e[+-]digits]; text containing a character outside 0-9+-.eE (and not an inf/nan spelling) must give NaN; anything in between is unspecified",
 	},
@@ -251,8 +251,8 @@ var c18Check = core.Mon(c18, "numeric-builtins", func(w *core.W, c *NumFnCase) {
 		case "sqrt":
 			want = ref.Sqrt(bx)
 		case "exp":
-			if f, _ := bx.Float64(); f > 690 || f < -690 {
-				w.Skip("result-beyond-1e300")
+			if f, _ := bx.Float64(); f > 870 || f < -870 {
+				w.Skip("result-beyond-1e377")
 				return
 			}
 			want = ref.Exp(bx)
@@ -288,11 +288,7 @@ var c18Check = core.Mon(c18, "numeric-builtins", func(w *core.W, c *NumFnCase) {
 				wf = -wf
 			}
 			if wf < 1 {
-				tol = c18Tol / wf
-				if tol > 1e-9 {
-					w.Skip("log-near-one")
-					return
-				}
+				w.Count("log_near_one")
 			}
 		}
 		w.Max("relerr:"+c.Fn, rel)
@@ -515,6 +511,14 @@ func arg15(r *rand.Rand) string {
 	return spell(r, r.Intn(2) == 0, dig, exp)
 }
 
+// decPlain writes a non-negative Dec as coefficient and exponent text.
+func decPlain(d ref.Dec) string {
+	if d.Exp == 0 {
+		return d.Coef.String()
+	}
+	return d.Coef.String() + "e" + strconv.Itoa(d.Exp)
+}
+
 func spellExp(dig string, e int) string {
 	if e == 0 {
 		return dig
@@ -547,6 +551,22 @@ func runC18(w *core.W) {
 	for k := -15; k <= 30; k++ {
 		if w.Mine(k + 15) {
 			run(&NumFnCase{Fn: "logpow10", Args: []string{strconv.Itoa(k)}})
+		}
+	}
+	// exp beyond what a float64 can hold (the statement's arguments reach far further than 709.78), ln just below and above 1
+	for i, x := range []string{"690", "700", "705", "709", "709.78", "709.79", "710", "720", "750", "800", "850", "869", "-690", "-709.78", "-710", "-745", "-750", "-800", "-869", "1e2", "5e2", "0.7e3"} {
+		if w.Mine(i) {
+			run(&NumFnCase{Fn: "exp", Args: []string{x}})
+		}
+	}
+	for i, d := range []string{"1e-15", "3e-12", "2e-8", "5e-6", "1e-3", "0.03", "0.1"} {
+		if w.Mine(i) {
+			dd, _ := ref.ParseDec(d)
+			one := ref.Dec{Coef: big.NewInt(1)}
+			run(&NumFnCase{Fn: "ln", Args: []string{decPlain(ref.Sub(one, dd))}})
+			run(&NumFnCase{Fn: "ln", Args: []string{decPlain(ref.Add(one, dd))}})
+			run(&NumFnCase{Fn: "log", Args: []string{decPlain(ref.Sub(one, dd))}})
+			run(&NumFnCase{Fn: "log", Args: []string{decPlain(ref.Add(one, dd))}})
 		}
 	}
 	for i, n := 0, w.Pick(12000, 200000); i < n; i++ {
